@@ -29,6 +29,9 @@ from symx.values import SFloat, SInt, SLabel, fpval, model_float, model_int, to_
 STR_LABELS = ['a', 'b', 'c', 'd']
 
 
+MAX_CANDIDATES = 3  # IEEE confirmations + replays per configuration (further mismatching paths are only counted)
+
+
 def cfg5(**kw) -> dict:
     c = dict(N=1, B=1, L=3, errors='raise', failures='raise', cfe=True, with_z=False,
              span='list_sym',   # list_sym | range | nd_obj_sym | nd_int | list_str
@@ -277,7 +280,7 @@ def explore5(cfg: dict) -> dict:
                 x, y = lf_term(m1.__dict__['_' + n][j]), init[n][j].t
                 if not x.eq(y) and c._check(x != y) == 'sat':
                     bad.append(f'unvisited period {j}: {n} changed')
-        n_eval = sum(1 for k, _, _ in t1 if k == 'eval')
+        n_eval = sum(1 for e in t1 if e[0] == 'eval')
         return {'bad': bad, 'cell_bad': cell_bad, 'a': _pub(a), 'b': _pub(b), 'n_eval': n_eval,
                 'visited': sorted(visited)}
 
@@ -295,6 +298,8 @@ def explore5(cfg: dict) -> dict:
             res['nontrivial_paths'] += 1
         if r['bad'] or r['cell_bad']:
             res['mismatch_paths'] += 1
+            if len(res['candidates']) + res['spurious_under_uf'] >= MAX_CANDIDATES:
+                continue
             extra = []
             if not r['bad']:
                 extra = [z3.Or(*[x != y for (_, _, x, y) in r['cell_bad']])]
